@@ -5,6 +5,8 @@ props=[json.loads(l) for l in open('/verif/properties.jsonl')]
 ENV="GOFLAGS=-mod=mod GOPROXY=off GOSUMDB=off GOTOOLCHAIN=local"
 SIM="the scripted in-memory connection, reference broker (independent MQTT 3.1.1 codec) and instrumented Persistence of /verif/harness/sim model network, broker and store faithfully; faults are realistic (see DESIGN.md section 3 conventions)"
 checks={
+ "C14":("exploration","runtime monitoring: per-call classification against the documented sets with byte attribution on the wire (unique topic markers), over a PRNG-drawn matrix method x state x fault placement x quit x argument x store fault; classifier laws on generated error trees against errors.Is; race detector on",
+        "Held on the cells run: every error was in the documented set of its method; not-submitted classes came with zero bytes of the request on every connection; ErrBreak/ErrAbandoned only with the complete packet; quit alone gave ErrCanceled/ErrAbandoned; refused persisted publishes left no record, bytes, exchange or used slot; IsDeny/IsEnd/Backoff/ReadBackoff agreed with the errors.Is reference on generated trees and did not modify them. The matrix is sampled by PRNG (~2000 cells per run), not enumerated.","3/C14"),
  "C13":("exploration","runtime monitoring: reference classifier (first offending packet over a model of outstanding transfers) vs the client's behaviour on directed, single-field-mutated, truncated and random inputs, as handshake reply and as stream; deadline-discipline monitor in the connection; allocation counter; child-process panic monitor",
         "Held on the inputs generated: no panic; every listed protocol violation surfaced as a ReadSlices error, the connection was closed by the client and the next ReadSlices dialled again; packets before the offence took effect exactly as the reference says; no transfer completed and no record was removed without its in-order acknowledgement bytes in the input; every Read blocking inside a packet had a deadline armed; allocation stayed below the largest announced packet + 8 MiB. Inputs are generated (47 directed offences, all single-field mutations of generated streams, all truncations, PRNG soup, all 256 return codes), not the set of all byte strings; coverage-guided fuzzing was cut.","3/C13"),
  "C09":("exploration","runtime monitoring: reference validity predicate + strict independent decode of every emitted packet, over a boundary-list x PRNG argument and Config generator; trace monitors for 'no byte, no store operation, no capacity consumed' on denial",
